@@ -113,16 +113,18 @@ class StructCore(object):
         in the case of a structure with variable-length fields
         that have been unpacked.
         """
-        A = self.align_value()
+        # use the pointer size of the last unpack (if any):
+        psize = self.__dict__.get("_psize",0)
+        A = self.align_value(psize)
         sz = 0
         for f in self.fields:
             # adjust current size with alignment constraints:
             # and add field size:
             if self.union is False and not self.packed:
-                sz = f.align(sz)
+                sz = f.align(sz,psize)
             if f.instance is None:
                 continue
-            fsz = f.size()
+            fsz = f.size(psize)
             if fsz==float('Infinity'):
                 continue
             if self.union is False:
@@ -148,12 +150,17 @@ class StructCore(object):
 
     @classmethod
     def align_value(cls,psize=0):
+        if cls.packed:
+            return 1
         return max([f.align_value(psize) for f in cls.fields])
 
     def unpack(self, data, offset=0, psize=0):
+        self._psize = psize
+        base = offset
         for f in self.fields:
             if self.union is False and not self.packed:
-                offset = f.align(offset, psize)
+                # fields are aligned relative to the start of the structure:
+                offset = base + f.align(offset-base, psize)
             try:
                 value = f.unpack(data, offset, psize)
             except Exception:
